@@ -73,10 +73,11 @@ Section RoundTrip.
   (* ---------- a writer session under the scheme it ends up with ---------- *)
   (* the scheme is the header's, or (no scheme in the header) the one the
      first record fixes *)
-  Definition fixes_scheme (sch : option scheme) (s : scheme) (rs : list mrec) : Prop :=
+  Definition fixes_scheme (sch : option scheme) (s : scheme) (m : mode) (rs : list mrec) : Prop :=
     sch = Some s \/
     (sch = None /\ exists r1 rest, rs = r1 :: rest /\ s = no_restrictions (record_names r1) /\
-                                   names_writable (record_names r1) = true).
+                                   names_writable (record_names r1) = true /\
+                                   exists lg v, record_validate sem r1 (Some m) LgWriter true (Some s) = (lg, Ok v)).
 
   Definition start_writer (h : header) (sch : option scheme) (m : mode) (s : scheme) : writer :=
     with_out (mk_writer h sch m tt (validate_errs registry (hrecs h) sch)) s
@@ -85,21 +86,21 @@ Section RoundTrip.
   Lemma write_file_under (h : header) m sch s rs l :
     h_scheme registry (hrecs h) = Ok sch ->
     process m LgWriter (validate_errs registry (hrecs h) sch) = (l, Ok tt) ->
-    fixes_scheme sch s rs -> s_truthy s = true ->
+    fixes_scheme sch s m rs -> s_truthy s = true ->
     write_file h (Some m) rs =
     (let '(os, w') := writer_adds sem (start_writer h sch m s) rs in
      {| wr_log := l ++ []; wr_init := Ok (validate_errs registry (hrecs h) sch); wr_adds := os;
         wr_entries := w_out w'; wr_scheme := w_scheme w' |}).
   Proof.
     intros Hs Hp Hfix Ht. unfold FileIO.write_file. rewrite (writer_init_fwd registry h m sch l Hs Hp).
-    destruct Hfix as [->|(-> & r1 & rest & -> & -> & Hw)].
+    destruct Hfix as [->|(-> & r1 & rest & -> & -> & Hw & lgv & v & Hv)].
     - assert (E : mk_writer h (Some s) m tt (validate_errs registry (hrecs h) (Some s)) = start_writer h (Some s) m s).
       { unfold start_writer, with_out, mk_writer. cbn [w_header w_scheme w_mode w_out]. now rewrite Ht. }
       rewrite E. destruct (writer_adds sem (start_writer h (Some s) m s) rs) as [os w']. reflexivity.
     - set (s := no_restrictions (record_names r1)) in *.
       set (w0 := mk_writer h None m tt (validate_errs registry (hrecs h) None)).
       assert (E : writer_adds sem w0 (r1 :: rest) = writer_adds sem (start_writer h None m s) (r1 :: rest)).
-      { cbn [writer_adds]. rewrite (iadd_no_scheme sem w0 r1 eq_refl Hw Ht). fold s.
+      { cbn [writer_adds]. rewrite (iadd_no_scheme sem w0 r1 lgv v eq_refl Hw Ht Hv). fold s.
         assert (Ew : with_out w0 s (w_out w0 ++ [join [TAB] (s_names s)]) = start_writer h None m s).
         { unfold start_writer, w0. rewrite mk_writer_out. cbn [column_entries]. now rewrite app_nil_r. }
         now rewrite Ew. }
@@ -135,9 +136,28 @@ Section RoundTrip.
     destruct (writer_adds sem _ rest) as [os w']. cbn in Hclean. discriminate.
   Qed.
 
+  (* ... and validated the record under the scheme of its names *)
+  Lemma clean_first_validates (h : header) m r1 rest :
+    h_scheme registry (hrecs h) = Ok None ->
+    wr_clean (write_file h (Some m) (r1 :: rest)) = true ->
+    exists lg v, record_validate sem r1 (Some m) LgWriter true (Some (no_restrictions (record_names r1))) = (lg, Ok v).
+  Proof.
+    intros Hs Hclean. pose proof (clean_first_writable h m r1 rest Hs Hclean) as Hw.
+    unfold wr_clean, FileIO.write_file in Hclean.
+    destruct (writer_init registry h (Some m)) as [lg [w|e]] eqn:EI; [|discriminate].
+    destruct (writer_init_ok registry h m lg w EI) as (sch' & Hs' & _ & ->).
+    rewrite Hs in Hs'. injection Hs' as <-.
+    set (w0 := mk_writer h None m tt (validate_errs registry (hrecs h) None)) in *.
+    destruct (record_validate sem r1 (Some m) LgWriter true (Some (no_restrictions (record_names r1)))) as [lgv [v|e]] eqn:EV;
+      [eauto|].
+    cbn [writer_adds] in Hclean.
+    rewrite (iadd_no_scheme_invalid sem w0 r1 lgv e eq_refl Hw EV) in Hclean.
+    destruct (writer_adds sem w0 rest) as [os w']. cbn in Hclean. discriminate.
+  Qed.
+
   (* ----- first write: from "clean" to the entries ----- *)
   Lemma first_write (h : header) m sch s rs :
-    h_scheme registry (hrecs h) = Ok sch -> fixes_scheme sch s rs -> s_truthy s = true ->
+    h_scheme registry (hrecs h) = Ok sch -> fixes_scheme sch s m rs -> s_truthy s = true ->
     wr_clean (write_file h (Some m) rs) = true ->
     exists l (vts : list (mrec * str)),
       process m LgWriter (validate_errs registry (hrecs h) sch) = (l, Ok tt) /\
@@ -167,7 +187,7 @@ Section RoundTrip.
   Lemma clean_write (h : header) m sch s rs l (vts : list (mrec * str)) :
     h_scheme registry (hrecs h) = Ok sch ->
     process m LgWriter (validate_errs registry (hrecs h) sch) = (l, Ok tt) ->
-    fixes_scheme sch s rs -> s_truthy s = true ->
+    fixes_scheme sch s m rs -> s_truthy s = true ->
     Forall2 (fun r vt => accepted s m r (fst vt) (snd vt)) rs vts ->
     wr_clean (write_file h (Some m) rs) = true /\
     accepted_records (write_file h (Some m) rs) = map fst vts /\
@@ -329,7 +349,7 @@ Section RoundTrip.
   (* ---------- the round trip ---------- *)
   Theorem round_trip_core hl m0 lg0 l0 (h : header) sch (s : scheme) m rs (translate : bool) :
     header_from_lines registry hl m0 lg0 = (l0, Ok h) -> Forall no_crlf hl ->
-    h_scheme registry (hrecs h) = Ok sch -> fixes_scheme sch s rs ->
+    h_scheme registry (hrecs h) = Ok sch -> fixes_scheme sch s m rs ->
     s_truthy s = true -> carriable (s_names s) -> NoDup (s_names s) ->
     Forall (rereadable s) rs ->
     let w1 := write_file h (Some m) rs in
@@ -392,12 +412,15 @@ Section RoundTrip.
                                  (header_print_lines recs ++ join [TAB] (s_names s) :: map row_line rows) (Some m)).
     { subst rt. unfold round_trip_of. cbn [rt_read]. fold w1. unfold read_path, read_text. destruct translate; now rewrite <- Hlines. }
     (* second write *)
-    assert (Hfix2 : fixes_scheme sch s (rereads m n0 rows)).
-    { destruct Hfix as [->|(-> & r1 & rest & -> & Es & Hw)]; [now left|right]. split; [reflexivity|].
+    assert (Hfix2 : fixes_scheme sch s m (rereads m n0 rows)).
+    { destruct Hfix as [->|(-> & r1 & rest & -> & Es & Hw & _)]; [now left|right]. split; [reflexivity|].
       destruct vts as [|vt1 vts1]; [inversion HF|].
-      subst rows. unfold rows_of in *. cbn [map] in Hgood |- *.
-      pose proof (Forall_inv Hgood) as Hg1. destruct Hg1 as (Hn1 & _ & _).
-      cbn [rereads]. eexists _, _. split; [reflexivity|]. rewrite reread_names, <- Hn1, <- Hfirst. split; [exact Es|exact Hw]. }
+      subst rows. unfold rows_of in *. cbn [map] in Hgood, Hren |- *.
+      pose proof (Forall_inv Hgood) as Hg1. pose proof (Forall_inv Hren) as Hr1.
+      destruct (reread_accepted sem s m n0 _ Ht ND Hg1 Hr1) as (lg2 & Hv2 & _ & _).
+      destruct Hg1 as (Hn1 & _ & _).
+      cbn [rereads]. eexists _, _. split; [reflexivity|]. rewrite reread_names, <- Hn1, <- Hfirst.
+      split; [exact Es|]. split; [exact Hw|]. eauto. }
     pose proof (rereads_accepted s m rows n0 Ht ND Hgood Hren) as HF2.
     destruct (reread_vts_spec m rows n0) as [Hv1 Hv2].
     destruct (clean_write (mk_header m recs verrs) m sch s (rereads m n0 rows) l (reread_vts m n0 rows)
